@@ -124,7 +124,10 @@ class C07(PropBase):
         stmt_alias = rng.random() < 0.25
         if stmt_alias:
             mod["decls"].append({"d": "raw", "n": "VwTreeP", "src": "type VwTreeP = dict[str, VwTreeP] | int\n"})
-        world = {"modules": [mod]}
+        # a second module with classes of the same names (other members): calls issued from there must still
+        # reach the first module's classes at every level of the recursion
+        mod1 = {"name": "vw1", "future": False, "decls": [{"d": "dataclass", "n": d["n"], "fields": [{"n": "zz", "t": {"k": "int"}, "default": 0}], "flags": {}} for d in group]}
+        world = {"modules": [mod, mod1]}
         env = self.base_env(rng, fault_free=True)
         limit = rng.choice([1000, 1000, 2000, 5000]) if "reclimit" in sw else 1000
         env["reclimit"] = limit
@@ -269,6 +272,12 @@ class C07(PropBase):
                                        for fk, fv in lv["f"].items()}
                         step = {"op": "unmarshal", "t": t, "x": {"$chain": wl}, "mod": "vw0", "vdepth": d, "exhaust": True, "rejected": True}
             steps.append(step)
+        other_first = rng.random() < 0.5
+        for st in steps:
+            t = st.get("t")
+            if isinstance(t, dict) and not any(n_["k"] == "raw" for n_ in model.twalk(t)) and st.get("op") in ("roundtrip", "unmarshal", "build", "unmarshal_mixed"):
+                if (other_first and st is next((x for x in steps if x.get("t") is not None), None)) or rng.random() < 0.35:
+                    st["mod"] = "vw1"  # issued from the module whose own classes bear the same names
         return {"prop": self.ID, "seed": seed, "tier": tier, "world": world, "env": env, "steps": steps_with_ids(steps), "meta": {"swarm": sw, "limit": limit}}
 
     def exec_op(self, sess, i, step):
